@@ -112,8 +112,10 @@ def seiStep (acc : List (V3 K) → List (V3 K)) (dt : K) (c : SeiC K) (s : List 
 
 /-! ## abstract splittings -/
 
-/-- run a list of (which flow, coefficient) through two flows `A B : K → S → S` -/
-def splitRun {S : Type} (A B : K → S → S) : List (Bool × K) → S → S
+/-- run a list of (which flow, coefficient) through two flows `A B : C → S → S`
+    (`false` = A, `true` = B); WHFast/SABA/EOS steps are such lists with `A` the Kepler (or
+    drift) flow and `B` the interaction (kick) flow -/
+def splitRun {S C : Type} (A B : C → S → S) : List (Bool × C) → S → S
   | [], s => s
   | (false, c) :: r, s => splitRun A B r (A c s)
   | (true, c) :: r, s => splitRun A B r (B c s)
